@@ -89,12 +89,66 @@ def discharge(vc, timeout_ms=10000, use_cvc5=True, keep_model=True):
         return Verdict(vc.name, "refuted", "z3", time.time() - t0, model=m if keep_model else None, meta=vc.meta,
                        smt_size=len(s.sexpr()))
     reason = s.reason_unknown()
+    # the solver could neither prove nor refute: look for a counter-model among small concrete parameter values
+    m = _model_search(vc, s)
+    if m is not None:
+        return Verdict(vc.name, "refuted", "z3+enum", time.time() - t0, model=m if keep_model else None, meta=vc.meta,
+                       smt_size=len(s.sexpr()))
     if use_cvc5:
         v = _cvc5(vc, s, max(2, timeout_ms // 1000))
         if v is not None:
             v.secs = time.time() - t0
             return v
     return Verdict(vc.name, "unknown", "z3", time.time() - t0, reason=reason, meta=vc.meta)
+
+
+def _free_numeric_params(vc):
+    seen, out = set(), {}
+    stack = list(vc.pc) + [vc.goal]
+    while stack:
+        x = stack.pop()
+        if x.get_id() in seen:
+            continue
+        seen.add(x.get_id())
+        if z3.is_quantifier(x):
+            stack.append(x.body())
+        elif z3.is_app(x):
+            if z3.is_const(x) and x.decl().kind() == z3.Z3_OP_UNINTERPRETED and "!" not in x.decl().name():
+                if z3.is_int(x) or z3.is_real(x):
+                    out[x.decl().name()] = x
+            stack.extend(x.children())
+    return [out[k] for k in sorted(out)]
+
+
+def _model_search(vc, solver, tries=60, per_ms=300):
+    import random
+
+    params = _free_numeric_params(vc)
+    if not params:
+        return None
+    rng = random.Random(12345)
+    ints = [0, 1, 2, 3, 4, 5, 7, 8, 9, 10, 16, 100]
+    reals = ["0", "1", "2", "3", "1/2", "3/2", "5/2", "7/2", "1/4", "10", "100", "950", "1/10"]
+    solver.set("timeout", per_ms)
+    for _ in range(tries):
+        solver.push()
+        for p in params:
+            if rng.random() < 0.25:
+                continue
+            if z3.is_int(p):
+                solver.add(p == rng.choice(ints))
+            else:
+                solver.add(p == z3.RealVal(rng.choice(reals)))
+        try:
+            r = solver.check()
+        except z3.Z3Exception:
+            r = z3.unknown
+        if r == z3.sat:
+            m = solver.model()
+            solver.pop()
+            return m
+        solver.pop()
+    return None
 
 
 _sym_cache = {}
